@@ -118,6 +118,10 @@ def matmul_cases(tier):
         for fl in flag_sets(2, len(sa) == 2 and len(sb) == 2):
             cases.append(VCase("functional.matmul", {"op": "functional.matmul", "shapes": [sa, sb], "requires_grad": list(fl)},
                                [Leaf("a", sa, "any", fl[0]), Leaf("b", sb, "any", fl[1])], lambda T, K: f.matmul(T["a"], T["b"]), functions=fns))
+    # 1-d operands: the wrapper may refuse them at forward (then nothing is demanded), but whatever it accepts must have the exact VJP
+    for sa, sb in [((2, 3, 4), (4,)), ((3, 4), (4,)), ((4,), (4, 3)), ((4,), (4,)), ((2, 1, 3, 4), (4,)), ((4,), (2, 4, 3))]:
+        cases.append(VCase("functional.matmul", {"op": "functional.matmul", "shapes": [sa, sb], "requires_grad": [True, True], "one_dimensional_operand": True},
+                           [Leaf("a", sa), Leaf("b", sb)], lambda T, K: f.matmul(T["a"], T["b"]), functions=fns))
     cases.append(VCase("Tensor.__matmul__", {"op": "Tensor.__matmul__", "shapes": [(2, 3), (3, 2)]}, [Leaf("a", (2, 3)), Leaf("b", (3, 2))],
                        lambda T, K: T["a"] @ T["b"], functions=("synapgrad.tensor.Tensor.__matmul__",)))
     cases.append(VCase("Tensor.__rmatmul__", {"op": "Tensor.__rmatmul__", "shapes": [(2, 3), (3, 2)]}, [Leaf("b", (3, 2))],
@@ -186,6 +190,9 @@ INDEX_CATALOGUE = [
     ((3, 4), (SL(None, None, 2), [0, 2, -4]), "step, aliasing signs"), ((3, 4), ([0, -3], [-1, 3]), "aliasing sign pairs"),
     ((2, 3, 4), (Ellipsis, None, [3, -1]), "ellipsis,newaxis,aliasing signs"), ((2, 3, 4), ([1, -1], SL(None), [0, -4]), "separated aliasing signs"),
     ((4,), [-1, -1], "repeated negative"), ((3, 4), (np.array([True, False, True]), [1, -3]), "mask with aliasing signs"),
+    # sequences that are neither list nor ndarray are advanced indices too when nested in the subscript
+    ((3, 4), ((0, 0, 2), SL(None)), "nested tuple with repeats"), ((3, 4), (SL(None), (1, 1)), "nested tuple with repeats"), ((2, 3, 4), (Ellipsis, (3, 0, 3, 3)), "nested tuple with repeats"),
+    ((3, 4), ((2, 0), (1, 1)), "paired nested tuples"), ((4,), (range(0, 4, 2),), "range object"),
 ]
 
 
